@@ -80,7 +80,7 @@ func refusedWriteScenario(c *sup.Ctx) {
 			props := []string{"C17"}
 			switch kind {
 			case "refused-frame":
-				props = []string{"C01"}
+				props = []string{"C01", "C07"}
 			case "refused-event", "event-count":
 				props = []string{"C17", "C08"}
 			}
